@@ -47,6 +47,8 @@ type PipelineRunner struct {
 
 	// Wait group for waiting for asynchronous operations like job.Cancel
 	wg sync.WaitGroup
+	// Mutex for serializing saves to the store
+	saveMx sync.Mutex
 	// Flag if the runner is shutting down
 	isShuttingDown bool
 
@@ -732,8 +734,10 @@ func (r *PipelineRunner) initialLoadFromStore() error {
 }
 
 func (r *PipelineRunner) SaveToStore() {
-	r.wg.Add(1)
-	defer r.wg.Done()
+	// Saves are serialized: a snapshot must never be overwritten by an older one (persist loop vs. the final save in Shutdown).
+	// The wait group must not be used here, since adding to it concurrently with the Wait() in Shutdown is not allowed.
+	r.saveMx.Lock()
+	defer r.saveMx.Unlock()
 
 	log.
 		WithField("component", "runner").
